@@ -87,7 +87,7 @@ def run(ctx: Ctx) -> None:
     sampled = False
     if not ctx.quick and len(behs) > 2500:
         # every history costs a forked interpreter (and 3 s for each hanging step): a seeded sample keeps
-        # the thorough tier within about half an hour; single and two-test histories are all kept
+        # the thorough tier to roughly an hour on a loaded machine; single and two-test histories are all kept
         rng = ctx.rng("hist-thorough")
         short = [b for b in behs if len(b["tests"]) <= 2]
         rest = [b for b in behs if len(b["tests"]) > 2]
